@@ -128,7 +128,14 @@ def body(case):
     kw = dict(case['kw'])
     for k in ('bkpt', 'placed'):
         if k in kw:
-            kw[k] = np.array(kw[k], dtype='i8' if case.get('bk_int') else 'f8')
+            bdt = 'f8'
+            if case.get('bk_int'):
+                # whole-number breakpoints in a signed or (round 9, when none is negative) an unsigned integer array
+                bdt = ('i8', 'u1', 'u2', 'i4', 'u8')[int(abs(case['coeff_seed'][0]) * 1000) % 5]
+                if bdt[0] == 'u' and len(kw[k]) and (min(kw[k]) < 0 or max(kw[k]) > np.iinfo(bdt).max):
+                    bdt = 'i8'
+                note_label('breakpoint-dtype:' + bdt)
+            kw[k] = np.array(kw[k], dtype=bdt)
     if case.get('bk_int'):
         note_label('integer-breakpoints')
     b = call(bspline, x, nord=nord, **kw)
@@ -274,6 +281,22 @@ def body(case):
         nint = len(set(int(v) for v in idx))
         if nint >= 3:
             note_label('>=3-intervals')
+        # round 9: the documented hand-over value(x, action=, lower=, upper=) for points in ascending order (the order in which
+        # action() lays out its rows): the same values as value(x), also when the same matrix is handed over a second time,
+        # and the caller's matrix is left alone
+        act, alo, aup = call(b.action, xs.copy())
+        act0 = np.array(act, copy=True)
+        ya, ma = call(b.value, xs.copy(), action=act, lower=alo, upper=aup)
+        yb, mb = call(b.value, xs.copy(), action=act, lower=alo, upper=aup)
+        with judge('action-keyword'):
+            ya, yb = np.asarray(ya, dtype='f8'), np.asarray(yb, dtype='f8')
+            w1 = bslib.spline_value(t, coeff, nord, xs, 'right')
+            w2 = bslib.spline_value(t, coeff, nord, xs, 'left')
+            tola = 1e-9 * (1 + np.abs(coeff).max())
+            oka = (np.abs(ya - w1) <= tola) | (np.abs(ya - w2) <= tola)
+            check(bool(oka.all()), 'value-with-supplied-action-differs-from-cox-de-boor', lambda: dict(x=float(xs[~oka][0]), got=float(ya[~oka][0]), want=float(w1[~oka][0])))
+            check(bool(np.array_equal(ya, yb)), 'second-evaluation-with-the-same-action-matrix-differs', lambda: dict(first=ya.tolist()[:6], second=yb.tolist()[:6]))
+            check(bool(np.array_equal(np.asarray(act), act0)), 'value-modifies-the-supplied-action-matrix')
     if len(ev) > 1 and not bool(np.all(np.diff(ev) >= 0)):
         note_label('unsorted-eval')
     if len(set(ev.tolist()) & set(inner.tolist())):
